@@ -996,4 +996,110 @@ example : fileErrors id [⟨8, [⟨.onset, ['a']⟩], []⟩, ⟨16, [⟨.inset, 
 /-- the Delay-shifted group of a skipped row is skipped with it -/
 example : fileErrors id [⟨8, [], [(4, [⟨.onset, ['a']⟩])]⟩, ⟨16, [⟨.offset, ['a']⟩], []⟩]
     (fun i => if i = 0 then [.error] else []) = [(1, .offsetBeforeOnset)] := by decide
+
+/-! ### files out of time order: a Delay group uses its own row's onset; verdicts do not depend on row order -/
+
+/-- **A Delay group takes effect at its own row's onset + delay**, wherever the row stands in the file:
+that time is a time point of the file and the group's markers are among its markers. -/
+theorem delay_uses_own_onset (rows : List Row) (r : Row) (hr : r ∈ rows) (p : Int × List Marker)
+    (hp : p ∈ r.delayed) :
+    r.time + p.1 ∈ effTimes rows ∧
+    ∀ m ∈ p.2, ∃ tp ∈ timePoints rows, tp.time = r.time + p.1 ∧ m ∈ tp.markers := by
+  have hmem : r.time + p.1 ∈ effTimes rows := by
+    rw [mem_effTimes, mem_frame_times]
+    refine ⟨r, hr, ?_⟩
+    simp only [effTimesOf, List.mem_cons, List.mem_map]
+    exact Or.inr ⟨p, hp, rfl⟩
+  refine ⟨hmem, ?_⟩
+  intro m hm
+  simp only [effTimes, List.mem_map] at hmem
+  obtain ⟨tp, htp, ht⟩ := hmem
+  refine ⟨tp, htp, ht, ?_⟩
+  rw [timePoints_markers_order rows tp htp, ht, frame_markers]
+  apply List.mem_append_right
+  simp only [List.mem_flatMap]
+  refine ⟨r, hr, ?_⟩
+  simp only [delC, List.mem_flatMap]
+  exact ⟨p, hp, by simpa using hm⟩
+
+/-- a file whose rows carry the severities of their cell issues -/
+def issuesOf (L : List (Row × List Sev)) : Nat → List Sev := fun i => (L[i]?.map (·.2)).getD []
+
+theorem owner_unique (L : List (Row × List Sev)) (hd : DistinctAcross (L.map (·.1)))
+    (a b : Row × List Sev) (ha : a ∈ L) (hb : b ∈ L) (τ : Int)
+    (hta : τ ∈ effTimesOf a.1) (htb : τ ∈ effTimesOf b.1) : a = b := by
+  induction L with
+  | nil => cases ha
+  | cons x xs ih =>
+    simp only [DistinctAcross, List.map_cons, List.pairwise_cons, List.mem_map] at hd
+    obtain ⟨hx, hxs⟩ := hd
+    rcases List.mem_cons.mp ha with rfl | ha' <;> rcases List.mem_cons.mp hb with rfl | hb'
+    · rfl
+    · exact absurd rfl (hx b.1 ⟨b, hb', rfl⟩ τ hta τ htb)
+    · exact absurd rfl (hx a.1 ⟨a, ha', rfl⟩ τ htb τ hta)
+    · exact ih hxs ha' hb'
+
+theorem filter_map_congr {α β : Type} (π : α → β) (p p' : α → Bool) :
+    ∀ (l l' : List α), l.map π = l'.map π →
+      (∀ i (h : i < l.length) (h' : i < l'.length), p l[i] = p' l'[i]) →
+      (l.filter p).map π = (l'.filter p').map π
+  | [], [], _, _ => rfl
+  | [], _ :: _, h, _ => by simp at h
+  | _ :: _, [], h, _ => by simp at h
+  | a :: l, b :: l', h, hp => by
+    simp only [List.map_cons, List.cons.injEq] at h
+    have h0 := hp 0 (by simp) (by simp)
+    simp only [List.getElem_cons_zero] at h0
+    have ih := filter_map_congr π p p' l l' h.2 (fun i hi hi' => by
+      have := hp (i + 1) (by simp; omega) (by simp; omega)
+      simpa using this)
+    simp only [List.filter_cons, ← h0]
+    split <;> simp [h.1, ih]
+
+theorem invalid_by_owner (L : List (Row × List Sev)) (tp : TRow) (h : tp ∈ timePoints (L.map (·.1))) :
+    ∃ e ∈ L, tp.time ∈ effTimesOf e.1 ∧ issuesOf L tp.orig = e.2 := by
+  obtain ⟨row, hrow, ht⟩ := timePoints_orig _ tp h
+  simp only [List.getElem?_map, Option.map_eq_some_iff] at hrow
+  obtain ⟨e, he, rfl⟩ := hrow
+  exact ⟨e, List.mem_of_getElem? he, ht, by simp [issuesOf, he]⟩
+
+/-- **The temporal verdicts of a file do not depend on the order of its rows** (files out of time
+order; rows with Delay groups; rows skipped for an error), given that the effective times of different
+rows are different: the time points handed to the machine are the same (time, markers) list, and the
+temporal issue kinds are the same, in the same order. -/
+theorem file_errors_permutation_invariant (fold : Str → Str) (L L' : List (Row × List Sev))
+    (hp : L.Perm L') (hd : DistinctAcross (L.map (·.1))) :
+    (keptPoints (L'.map (·.1)) (issuesOf L')).map (fun r => (r.time, r.markers)) =
+      (keptPoints (L.map (·.1)) (issuesOf L)).map (fun r => (r.time, r.markers)) ∧
+    (fileErrors fold (L'.map (·.1)) (issuesOf L')).map (·.2) =
+      (fileErrors fold (L.map (·.1)) (issuesOf L)).map (·.2) := by
+  have hpi := permutation_invariant (L.map (·.1)) (L'.map (·.1)) (hp.map _) hd
+  have hk : (keptPoints (L'.map (·.1)) (issuesOf L')).map (fun r => (r.time, r.markers)) =
+      (keptPoints (L.map (·.1)) (issuesOf L)).map (fun r => (r.time, r.markers)) := by
+    unfold keptPoints
+    apply filter_map_congr _ _ _ _ _ hpi
+    intro i h h'
+    have ha := List.getElem_mem h
+    have hb := List.getElem_mem h'
+    obtain ⟨e', he', hte', hie'⟩ := invalid_by_owner L' _ ha
+    obtain ⟨e, he, hte, hie⟩ := invalid_by_owner L _ hb
+    have htime : ((timePoints (L'.map (·.1)))[i]).time = ((timePoints (L.map (·.1)))[i]).time := by
+      have := congrArg (fun l => l[i]?.map Prod.fst) hpi
+      simpa [List.getElem?_map, List.getElem?_eq_getElem h, List.getElem?_eq_getElem h'] using this
+    rw [htime] at hte'
+    have := owner_unique L hd e' e (hp.mem_iff.mpr he') he _ hte' hte
+    simp only [hie', hie, this]
+  refine ⟨hk, ?_⟩
+  have hm := congrArg (List.map Prod.snd) hk
+  simp only [List.map_map] at hm
+  have hm' : (keptPoints (L'.map (·.1)) (issuesOf L')).map (·.markers) =
+      (keptPoints (L.map (·.1)) (issuesOf L)).map (·.markers) := hm
+  simp only [fileErrors, List.map_map, hm']
+  rfl
+
+/-- an out-of-order file: the delayed Inset of the later row (written first) lands inside the scope -/
+example : (fileErrors id [⟨16, [], [(8, [⟨.inset, ['a']⟩])]⟩, ⟨8, [⟨.onset, ['a']⟩], []⟩, ⟨32, [⟨.offset, ['a']⟩], []⟩]
+    (fun _ => [])).map (·.2) = [] := by decide
+example : (timePoints [⟨16, [], [(8, [⟨.inset, ['a']⟩])]⟩, ⟨8, [⟨.onset, ['a']⟩], []⟩]).map
+    (fun r => (r.time, r.markers.length, r.orig)) = [(8, 1, 1), (16, 0, 0), (24, 1, 0)] := by decide
 end HedVerif.C10
